@@ -245,6 +245,32 @@ pub fn run(tier: Tier) -> i32 {
         jobs.push(Job { p, counts: Some(counts.clone()), part: "containers", cases: 10, nontriv: 10 });
     }
     rep.count("error_side_projects", n_err);
+    // ---- chains that rename a plural's count and pass an unrelated `count` on top: only the variable of that name is
+    // replaced, the plural keeps following its renamed count (the form is never frozen from another number)
+    for l in &locales {
+        for ordinal in [false, true] {
+            let mut e = vec![("pad".to_string(), st("[pad]"))];
+            for f in [Form::One, Form::Two, Form::Few, Form::Other] {
+                e.push((form_key("item", ordinal, f), form_val("item", f)));
+            }
+            let rename = |to: &str| fk_args("item", vec![("count", FkArg::Str(vec![var(to)]))]);
+            e.extend([
+                ("cart".to_string(), s(vec![var("items"), text(" / "), var("count"), text(": "), rename("items")])),
+                ("c_lit".to_string(), s(vec![fk_args("cart", vec![("count", FkArg::UInt(2))])])),
+                ("c_lit0".to_string(), s(vec![fk_args("cart", vec![("count", FkArg::UInt(0))])])),
+                ("c_str".to_string(), s(vec![fk_args("cart", vec![("count", FkArg::Str(vec![text("many")]))])])),
+                ("c_var".to_string(), s(vec![fk_args("cart", vec![("count", FkArg::Str(vec![var("m")]))])])),
+                ("c_both".to_string(), s(vec![fk_args("cart", vec![("count", FkArg::Str(vec![var("m")])), ("items", FkArg::Str(vec![var("k")]))])])),
+                ("c_items_lit".to_string(), s(vec![fk_args("cart", vec![("items", FkArg::UInt(1))])])),
+                ("d".to_string(), s(vec![text("d: "), fk_args("c_var", vec![("m", FkArg::Str(vec![var("z")]))])])),
+                ("cart2".to_string(), s(vec![var("items"), text(" / "), fk("item")])),
+                ("c2".to_string(), s(vec![fk_args("cart2", vec![("items", FkArg::UInt(0))])])),
+            ]);
+            let mut p = Project::new(Config::simple(l, &[l]));
+            p.set_file(None, l, e);
+            jobs.push(Job { p, counts: None, part: "renamed-count-chain", cases: 10, nontriv: 10 });
+        }
+    }
 
     let outcomes = Mutex::new(std::collections::BTreeMap::<String, u64>::new());
     par_for(jobs.len(), |w, i| {
@@ -271,7 +297,7 @@ pub fn run(tier: Tier) -> i32 {
         rep.sample(json!({"part": jobs[j].part, "project_head": vmodel::report::truncate(&jobs[j].p.describe(), 300)}));
     }
     let mut cov = serde_json::Map::new();
-    cov.insert("rule".into(), json!(format!("locales {locales:?}; for every non-empty subset of {{zero,one,two,few,many}} + other, cardinal and ordinal (62 keys per locale): merged tree evaluated under counts 0..=200,10^3,10^6,10^6+1,10^9 against ICU4X category_for called by the harness; UnusedForm diagnostics compared as a multiset with categories(); parse-time selection through `$t(k,{{count:n}})` for every such n plus decimals 0.5,1.0,1.5,2.0,0.0,21.0 and a renamed count, each locale as default; error side: every (cardinal form, ordinal form) pair under one base, with and without a mergeable set; every subset with a plain key of the base name; a plural whose base is a key that is itself named like a form and stays unmerged (lone k_two, k_one+k_two, lone k_other, lone ordinal forms; cardinal / ordinal plural of 2 or 3 forms, either file order: 48 files per locale); every subset without _other (keys must stay as written); three base keys in one file each in one of 6 states (absent, lone _one, lone _other, _one+_two, _one+_other, ordinal _one+_other): 216 files; forms inside subkeys/namespaces and look-alike suffixes")));
+    cov.insert("rule".into(), json!(format!("locales {locales:?}; for every non-empty subset of {{zero,one,two,few,many}} + other, cardinal and ordinal (62 keys per locale): merged tree evaluated under counts 0..=200,10^3,10^6,10^6+1,10^9 against ICU4X category_for called by the harness; UnusedForm diagnostics compared as a multiset with categories(); parse-time selection through `$t(k,{{count:n}})` for every such n plus decimals 0.5,1.0,1.5,2.0,0.0,21.0 and a renamed count, each locale as default; error side: every (cardinal form, ordinal form) pair under one base, with and without a mergeable set; every subset with a plain key of the base name; a plural whose base is a key that is itself named like a form and stays unmerged (lone k_two, k_one+k_two, lone k_other, lone ordinal forms; cardinal / ordinal plural of 2 or 3 forms, either file order: 48 files per locale); every subset without _other (keys must stay as written); three base keys in one file each in one of 6 states (absent, lone _one, lone _other, _one+_two, _one+_other, ordinal _one+_other): 216 files; forms inside subkeys/namespaces and look-alike suffixes; per locale, cardinal and ordinal: three- and four-level reference chains in which the middle key renames the plural's count and has a plain variable called `count`, the outer keys passing `count` / the new name / both as literal, text or variable")));
     cov.insert("exhaustive".into(), json!(true));
     cov.insert("outcome_classes".into(), json!(*outcomes.lock().unwrap()));
     cov.insert("key_locale_comparisons".into(), json!(*keys_total.lock().unwrap()));
